@@ -176,7 +176,11 @@ static Val icmp(State &s, CmpInst::Predicate p, const Val &a, const Val &b)
           default: break;
         }
       }
-      violation(s, "ptrcmp", "UB: ordering comparison of pointers into different objects", nullptr); throw PathEnd{"ptrcmp"};
+      // ordering of pointers into different objects ("is p inside this buffer?" idiom): objects are laid out
+      // at disjoint virtual addresses id * 2^36, which gives the consistent total order a flat memory has
+      Val va = a.conc ? mk_int(64, ((uint64_t)a.obj << 36) + a.c) : mk_sym(64, Z.bv_val((uint64_t)a.obj << 36, 64) + *a.e);
+      Val vb = b.conc ? mk_int(64, ((uint64_t)b.obj << 36) + b.c) : mk_sym(64, Z.bv_val((uint64_t)b.obj << 36, 64) + *b.e);
+      return icmp(s, p, va, vb);
     }
   }
   unsigned bits = a.bits;
